@@ -133,10 +133,10 @@ def r1(ctx):
         okc = from_len and sat == {0, 1} and chained and bool(e1) and bool(e2)
         det = "anchor iff count in %s or remote fingerprint == empty (count from get_range_len: %s, `||` chained: %s)" % (sorted(sat), from_len, chained)
         if okc:
-            # Case 3 (recursion) only on the both-false edge
-            splits = [bi for bi, t in pm.calls() if t["f"].get("name") == "with_capacity"]
-            okc = bool(e2f) and all(pm.edge_dominates(e2f[0], e2f[1], s) for s in splits) and bool(splits)
-            det += "; range splitting only when both tests fail: %s" % okc
+            # Case 3 (recursion): every RangeFingerprint part is produced only when both tests fail
+            fps = [bi for bi, si, s in pm.statements() if s["k"] == "assign" and s["r"][0] == "agg" and s["r"][1][0] == "adt" and s["r"][1][1].endswith("MessagePart") and s["r"][1][2] == "RangeFingerprint"]
+            okc = bool(e2f) and bool(fps) and all(pm.edge_dominates(e2f[0], e2f[1], x) for x in fps)
+            det += "; sub-range fingerprints are produced only when both tests fail: %s" % okc
     ctx.check(okc, "C01.R1c", PM, "recursion-anchor", det, le1[0]["loc"] if le1 else pm.sp)
     # (d) items inlined iff chunk size <= max_set_size
     szc = [c for c in cms if any(o.kind == "call" and o.data["f"].get("name") == "len" for o in trace(pm, c["a"], through_calls=False)) and
